@@ -285,13 +285,25 @@ impl Engine for C04 {
             st.class(if is_new && !is_old { "new_state_visible" } else { "old_state_visible" });
             // directories created before the kill exist; the listing quirk depends on it
             model.index_dir = ctx.cache.join("index-v5").exists();
-            // content area: adopt what is there (it must be valid) before judging reads
+            // the content area holds complete valid files only (judged strictly: nothing in these
+            // cases is harness damage), then the victim's address is adopted as found
+            let bad = reffmt::content_tree_violations(&ctx.cache, false);
+            st.eval(1);
+            if !bad.is_empty() {
+                return Err(format!("{crash_desc}: content area invalid: {}", bad.join("; ")));
+            }
             if let Op::Write(w) = &vstep.op {
                 let algo = if matches!(w.entry, WEntry::OneShot | WEntry::Create) { Algo::Sha256 } else { w.algo };
                 let addr = Model::addr_of(&ctx, AddrRef { algo, blob: w.blob });
                 model.adopt_content(&ctx, &addr);
+                // whenever the new entry is visible its content is already completely stored
+                if is_new && !is_old && !matches!(model.read_exp(&addr), crate::model::ReadExp::Bytes(_)) {
+                    return Err(format!(
+                        "{crash_desc}: the new entry of {vkey:?} is visible but its content is not stored (content path holds {})",
+                        crate::model::cshort(&model.content.get(&addr).cloned())
+                    ));
+                }
             }
-            basic::content_invariant(&ctx, &model, false).map_err(|e| format!("{crash_desc}: {e}"))?;
             if is_new && !is_old {
                 model.set_entry(&vkey, new_entry.clone().map(|mut e| {
                     // pin the timestamp the library chose
